@@ -1,7 +1,6 @@
 package main
 
 import (
-	"strings"
 	"context"
 	"crypto/ecdsa"
 	"crypto/ed25519"
@@ -12,6 +11,7 @@ import (
 	"fmt"
 	"os"
 	"path/filepath"
+	"strings"
 
 	pipeline "github.com/buildkite/go-pipeline"
 	"github.com/buildkite/go-pipeline/jwkutil"
